@@ -216,6 +216,74 @@ def work(part, n):
                 part.fail("wrong-values", f"array {o}: values differ from NumPy ({executor}, optimize_graph={og})", desc)
 
 
+def k_strided(ctx):
+    """K: one axis indexed by a positive-step slice: the slice every output block reads (_target_chunk_selection), the factor
+    _index_num_input_blocks charges, the declared num_input_blocks of the real selection op and the input blocks its key
+    function names for every output block vs Model.StridedIndex (block_sel, slice_nib, touched_chunks)"""
+    import cubed
+    import cubed.array_api as xp
+    import ndindex
+    from cubed.core.indexing import _index_num_input_blocks, _target_chunk_selection
+    from cubed.primitive.blockwise import ChunkKey
+
+    r = ctx.rng
+    spec = cubed.Spec(allowed_mem="200MB")
+    cases = []
+    for _ in range(ctx.n(80, 1500)):
+        n = r.randint(1, 20)
+        c = r.randint(1, n)
+        start = r.randrange(n)
+        stop = r.randint(start + 1, n)
+        step = r.choice([1, 2, 2, 3, 3, 4, 5, 7])
+        sl = slice(start, stop, step)
+        L = len(range(start, stop, step))
+        idx = ndindex.ndindex((sl,)).expand((n,))
+        ia = idx.args[0]
+        nb = -(-n // c)
+        oc = max(c // step, 1)
+        ctx.evaluations += 1
+        real_nib = _index_num_input_blocks(idx, (c,), (oc,), (nb,))
+        from cubed.utils import normalize_chunks
+        tchunks = normalize_chunks((oc,), (L,), dtype=np.float64)
+        nblocks = len(tchunks[0])
+        sels = [_target_chunk_selection(tchunks, (j,), idx.raw)[0] for j in range(nblocks)]
+        sel_t = "[" + "; ".join(f"({s_.start}, {s_.stop})" for s_ in sels) + "]"
+        # the real selection op
+        with warnings.catch_warnings():
+            warnings.simplefilter("ignore")
+            a = xp.asarray(np.arange(float(n)), chunks=(c,), spec=spec)
+            y = a[sl]
+        dag = y._plan.dag
+        ops = [d for _, d in dag.nodes(data=True) if d.get("primitive_op") is not None and a.name in d["primitive_op"].source_array_names]
+        keys_t, decl = None, None
+        if len(ops) == 1 and y.shape != a.shape:
+            pop = ops[0]["primitive_op"]
+            decl = int(pop.pipeline.config.num_input_blocks[0])
+            kf = pop.pipeline.config.back_key_function if hasattr(pop.pipeline.config, "back_key_function") else pop.pipeline.config.key_function
+            tname = pop.target_array.name if hasattr(pop.target_array, "name") else None
+            outname = [o for o in dag.successors([n_ for n_, d in dag.nodes(data=True) if d is ops[0]][0])][0]
+            per_block = []
+            for j in range(nblocks):
+                fa = kf(ChunkKey(outname, (j,)))
+                first = fa.args[0]
+                ks = sorted({int(k_.coords[0]) for k_ in (first if not isinstance(first, ChunkKey) else [first])})
+                per_block.append(ks)
+            keys_t = "[" + "; ".join("[" + "; ".join(str(k_) for k_ in ks) + "]" for ks in per_block) + "]"
+        desc = {"n": n, "chunk": c, "slice": [start, stop, step], "L": L}
+        e = (f"list_eqb (pair_eqb Nat.eqb Nat.eqb) (map (block_sel {ia.start} {ia.step} {oc} {L}) (seq 0 {nblocks})) {sel_t} && "
+             f"Nat.eqb (slice_nib {c} {nb} {ia.start} {ia.step} {L}) {real_nib} && Nat.eqb (canonical_stop {ia.start} {ia.step} {L}) {ia.stop}")
+        if keys_t is not None:
+            e += (f" && natlist2_eqb (map (fun j => sort_nat (touched_chunks {c} (block_positions {ia.start} {ia.step} {oc} {L} j))) (seq 0 {nblocks})) {keys_t}"
+                  f" && forallb (fun j => length (touched_chunks {c} (block_positions {ia.start} {ia.step} {oc} {L} j)) <=? {decl}) (seq 0 {nblocks})")
+            ctx.count("strided-with-real-op")
+        if nblocks >= 2:
+            ctx.nt(("strided", n, c, start, stop, step))
+        cases.append({"expr": e, "desc": desc,
+                      "show": f"(map (block_sel {ia.start} {ia.step} {oc} {L}) (seq 0 {nblocks}), slice_nib {c} {nb} {ia.start} {ia.step} {L}, "
+                              f"map (fun j => touched_chunks {c} (block_positions {ia.start} {ia.step} {oc} {L} j)) (seq 0 {nblocks}))"})
+    ctx.corr("strided_slice_selection", "Model.Util Model.Geometry Model.DagObs Model.StridedIndex", cases, chunk=300)
+
+
 def index_sweep(part, n):
     """single selections a[idx] on 1-4-d arrays: every combination of integer indexes, slices with positive / negative steps,
     one integer array and newaxis that NumPy accepts - compared element by element"""
@@ -323,6 +391,7 @@ def contraction_sweep(part, n):
 def run(ctx):
     warnings.filterwarnings("ignore")
     k_keyfunctions(ctx)
+    k_strided(ctx)
     pmap(ctx, work, [25] * (ctx.n(300, 10000) // 25), procs=12)
     pmap(ctx, index_sweep, [50] * (ctx.n(600, 12000) // 50), procs=12)
     pmap(ctx, contraction_sweep, [25] * (ctx.n(300, 6000) // 25), procs=12)
